@@ -1,0 +1,12 @@
+//go:build verif
+
+// Machine-checked specifications for package common (comment-only file; read by
+// /verif/bin/hopvc).
+
+package common
+
+// (C18) a string that does not fit the one-byte length prefix is rejected, not truncated or mis-framed.
+//@ func WriteString(s string, w io.Writer) (n int64, err error)
+//@   property C18
+//@   ensures err == nil ==> len(s) <= 255
+//@   ensures len(s) > 255 ==> err != nil && !called(io.Writer.Write)
